@@ -246,6 +246,45 @@ def rule_shape(prog, rep):
         rep.finding("C28.SHAPE", cv.name, "variables", "coerce_variable_values no longer inserts exactly the provided or defaulted variables (inserts: %d)" % len(inserts), cv.loc())
 
 
+def rule_result(prog, rep):
+    """C28.RESULT: what coerce_variable_value returns.  The caller's JSON value may be returned as it
+    is (`Ok(value.clone())`) only for leaf types - a built-in or custom scalar, an enum - where
+    coercion is a check.  For a list type the result is built from the coerced items, and for an
+    input object from the coerced / defaulted fields: returning the input there skips the wrapping
+    of single values into lists and the filling-in of input-object defaults."""
+    rep.floor("C28.RESULT", 3)
+    from ..flow import _strip, facts_at
+    fn = prog.fn(r"^apollo_compiler::resolvers::input_coercion::coerce_variable_value$")
+    roles = _roles(prog, fn)
+    vparam = None
+    for i, p in enumerate(prog.hir_body(fn)["params"]):
+        if p.get("k") == "bind" and p["name"] == roles["value"]:
+            vparam = "arg%d" % (i + 1)
+    n = 0
+    for b in sorted(fn.live_blocks()):
+        for st in fn.stmts(b):
+            if not (st[0] == "=" and st[1][0] == 0 and not st[1][1] and st[2][0] == "agg" and isinstance(st[2][1], list) and st[2][1][2] == "Ok"):
+                continue
+            val = fn.sym(st[2][2][0])
+            fs = _strip(facts_at(fn, b))
+            kinds = [x[2] for x in fs if x[0] == "variant" and re.search(r"::get@\d+\.as:Some\.0$", x[1]) and x[2] in ("Scalar", "Object", "Interface", "Union", "Enum", "InputObject")]
+            tyv = [x for x in fs if x[0] in ("variant", "variant_in") and x[1].lstrip("&*") in ("arg3", vparam and "arg3")]
+            is_input_clone = re.fullmatch(r"<Value as Clone>::clone\(&?\*?%s\)" % vparam, val) is not None if vparam else False
+            n += 1
+            if not is_input_clone:
+                continue
+            list_ty = any(x[0] == "variant" and x[2] in ("List", "NonNullList") or x[0] == "variant_in" and set(x[2]) <= {"List", "NonNullList"} for x in fs if "arg3" in x[1])
+            ok = bool(kinds) and all(k in ("Scalar", "Enum") for k in kinds) and not list_ty
+            rep.obligation(ok)
+            if ok:
+                rep.instance("C28.RESULT", "the input value is returned unchanged only for a %s type" % "/".join(sorted(set(kinds))))
+            else:
+                rep.finding("C28.RESULT", fn.name, "uncoerced:" + ("/".join(sorted(set(kinds))) or ("list" if list_ty else "unknown")),
+                            "coerce_variable_value returns the caller's JSON value unchanged on a path where the type is %s: list wrapping of single values and input-object defaults are skipped, so the coerced variables do not conform to their declared types" % ("/".join(sorted(set(kinds))) or ("a list type" if list_ty else "not known to be a leaf type")), fn.loc(st[3][0] if len(st) > 3 else None))
+    if n < 5:
+        raise Undecided("coerce_variable_value: fewer Ok(..) results than expected (%d)" % n)
+
+
 def rule_defaults(prog, rep):
     """C28.DEFAULTS: a default value (variable default, input-field default) is turned into JSON by
     graphql_value_to_json *before* it is coerced to the declared type - CoerceVariableValues uses
@@ -298,3 +337,4 @@ def run(prog, rep):
     rule_scalars(prog, rep)
     rule_shape(prog, rep)
     rule_defaults(prog, rep)
+    rule_result(prog, rep)
